@@ -63,6 +63,9 @@ class Tr:
         raise Unsupported(f"constant {e.value!r}")
 
     def e_Attribute(self, e):
+        path = ast.unparse(e)
+        if path in self.cfg.get("attr_paths", {}):
+            return [], self.cfg["attr_paths"][path]
         if isinstance(e.value, ast.Name) and e.value.id == "self":
             if e.attr == "_pipeline" or e.attr == "pipeline":
                 return [], "(pipeline self)"
@@ -243,6 +246,18 @@ class Tr:
                 ts.append(ta)
             x = self.atom(b, f"py_fix_inputs {' '.join(ts)}", "fx")
             return b, x
+        if isinstance(f, ast.Name) and f.id == "len" and len(e.args) == 1:
+            b, t = self.expr(e.args[0])
+            return b, f"(zlen {t})"
+        if isinstance(f, ast.Name) and f.id == "tuple" and len(e.args) == 1:
+            return self.expr(e.args[0])
+        if ast.unparse(f) in self.cfg.get("functions", {}):
+            b, ts = [], []
+            for a in e.args:
+                ba, ta = self.expr(a)
+                b += ba
+                ts.append(ta)
+            return b, f"({self.cfg['functions'][ast.unparse(f)]} {' '.join(ts)})"
         if ast.unparse(f) == "functools.reduce":
             lam = ast.unparse(e.args[0]).replace(" ", "")
             if lam != "lambdax,y:x|y":
@@ -253,12 +268,13 @@ class Tr:
         if isinstance(f, ast.Attribute):
             # self.method(...)
             if isinstance(f.value, ast.Name) and f.value.id == "self":
-                meth = self.cfg.get("methods", {}).get(f.attr)
+                kws = ",".join(f"{k.arg}={ast.unparse(k.value)}" for k in e.keywords)
+                meth = self.cfg.get("methods", {}).get(f.attr + ("(" + kws + ")" if kws else ""))
                 if meth is None:
-                    raise Unsupported("self." + f.attr)
+                    raise Unsupported("self." + f.attr + ("(" + kws + ")" if kws else ""))
                 b, ts = [], []
                 for a in e.args:
-                    ba, ta = self.expr(a)
+                    ba, ta = self.expr(a.value if isinstance(a, ast.Starred) else a)
                     b += ba
                     ts.append(ta)
                 call = f"{meth['coq']} self {' '.join(ts)}"
@@ -295,11 +311,31 @@ class Tr:
             return self.block(rest, ret)
         if isinstance(s, ast.Return):
             if s.value is None or (isinstance(s.value, ast.Constant) and s.value.value is None):
-                return self.cfg.get("return_none", "Ok None")
+                return self.cfg.get("return_none", "MOk self" if self.mut else "Ok None")
             b, t = self.expr(s.value)
             return self.wb(b, self.cfg.get("return_wrap", "Ok {0}").format(t))
         if isinstance(s, ast.Raise):
             return ("MErr self " if self.mut else "Err ") + self.exc_name(s.exc)
+        if (isinstance(s, ast.If) and isinstance(s.test, ast.Compare) and len(s.test.ops) == 1
+                and isinstance(s.test.ops[0], ast.Is) and isinstance(s.test.comparators[0], ast.Constant)
+                and s.test.comparators[0].value is None
+                and (ast.unparse(s.test.left) in self.cfg.get("attr_paths", {}) or
+                     (isinstance(s.test.left, ast.Name) and s.test.left.id in self.cfg.get("unwrap_args", ())))):
+            # `if X is None: A else: B` on an optional value: B sees the unwrapped value
+            left = s.test.left
+            t = self.pure(left)
+            thn = self.block(s.body + ([] if ends(s.body) else rest), ret)
+            if isinstance(left, ast.Name):
+                u = v(left.id)
+                els = self.block(s.orelse + ([] if (s.orelse and ends(s.orelse)) else rest), ret)
+            else:
+                u = self.fresh("some")
+                path = ast.unparse(left)
+                old = self.cfg["attr_paths"]
+                self.cfg = dict(self.cfg, attr_paths=dict(old, **{path: u}))
+                els = self.block(s.orelse + ([] if (s.orelse and ends(s.orelse)) else rest), ret)
+                self.cfg = dict(self.cfg, attr_paths=old)
+            return f"(match {t} with None => {thn} | Some {u} => {els} end)"
         if isinstance(s, ast.If):
             b, t = self.expr(s.test)
             if t == "(pipeline self)":
@@ -316,6 +352,11 @@ class Tr:
                 b, t = self.expr(s.value)
                 pat = ", ".join(v(x.id) for x in tgt.elts)
                 return self.wb(b, f"let '({pat}) := {t} in {self.block(rest, ret)}")
+            if isinstance(tgt, ast.Attribute) and ast.unparse(tgt) in self.cfg.get("attr_setters", {}):
+                b, t = self.expr(s.value)
+                if ast.unparse(tgt) in self.cfg.get("optional_attrs", ()) and t != "None":
+                    t = f"(Some {t})"
+                return self.wb(b, f"let self := {self.cfg['attr_setters'][ast.unparse(tgt)]} self {t} in {self.block(rest, ret)}")
             if isinstance(tgt, ast.Attribute) and ast.unparse(tgt) == "self._pipeline":
                 b, t = self.expr(s.value)
                 return self.wb(b, f"let self := set_pipeline self {t} in {self.block(rest, ret)}")
@@ -409,21 +450,27 @@ def wrap_binds(binds, term, do="do"):
     return out
 
 
-def find_method(tree, classname, name):
+def find_method(tree, classname, name, setter=False):
     for node in tree.body:
         if isinstance(node, ast.ClassDef) and node.name == classname:
             for f in node.body:
                 if isinstance(f, ast.FunctionDef) and f.name == name:
-                    # for properties with setters take the getter (first definition) unless cfg says otherwise
-                    return f
+                    is_setter = any(ast.unparse(d).endswith(".setter") for d in f.decorator_list)
+                    if is_setter == setter:
+                        return f
     raise Unsupported(f"{classname}.{name} not found")
 
 
 def translate_method(tree, classname, name, cfg):
-    f = find_method(tree, classname, name)
+    f = find_method(tree, classname, name, cfg.get("setter", False))
     tr = Tr(cfg)
     args = [a.arg for a in f.args.args if a.arg != "self"]
+    if f.args.vararg is not None:
+        args.append(f.args.vararg.arg)
+    if f.args.kwarg is not None or f.args.kwonlyargs:
+        raise Unsupported(f"{name}: keyword parameters")
     sig = " ".join(f"({v(a)} : {cfg.get('arg_types', {}).get(a, '_')})" for a in args)
     body = tr.block(f.body, cfg.get("fallthrough", "MOk self" if cfg.get("mutator") else "Ok self"))
-    rt = "mres" if cfg.get("mutator") else f"res ({cfg['ret_type']})"
-    return f"Definition {cfg['coq']} (self : wcs) {sig} : {rt} :=\n  {body}.\n"
+    st = cfg.get("self_type", "wcs")
+    rt = f"mresT {st}" if cfg.get("mutator") else f"res ({cfg['ret_type']})"
+    return f"Definition {cfg['coq']} (self : {st}) {sig} : {rt} :=\n  {body}.\n"
